@@ -387,15 +387,24 @@ Definition sgi_setcolor (a c newcolors : Z) (g : sgi_t) : sgi_t :=
   if a =? 38 then mkSgi (Some c) bg newcolors bold ul blink so cs dc
   else mkSgi fg (Some c) newcolors bold ul blink so cs dc.
 (* the while loop of sgi_to_attrspec *)
+Definition rgb_color (cr cg cb : Z) : Z := Z.shiftl (Z.min cr 255) 16 + Z.shiftl (Z.min cg 255) 8 + Z.min cb 255.
 Fixpoint sgi_loop (l : list Z) (g : sgi_t) : sgi_t :=
   match l with
   | [] => g
   | a :: r =>
       if (a =? 38) || (a =? 48) then
         match r with
-        | 5 :: c :: r' => sgi_loop r' (sgi_setcolor a (Z.min c 255) (Z.max 256 (g_colors g)) g)
-        | 2 :: cr :: cg :: cb :: r' =>
-            sgi_loop r' (sgi_setcolor a (Z.shiftl (Z.min cr 255) 16 + Z.shiftl (Z.min cg 255) 8 + Z.min cb 255) 16777216 g)
+        | b :: c :: r' =>
+            (* idx + 2 < len(attrs) and attrs[idx + 1] == 5 *)
+            if b =? 5 then sgi_loop r' (sgi_setcolor a (Z.min c 255) (Z.max 256 (g_colors g)) g)
+            else
+              match r' with
+              | cg :: cb :: r'' =>
+                  (* idx + 4 < len(attrs) and attrs[idx + 1] == 2 *)
+                  if b =? 2 then sgi_loop r'' (sgi_setcolor a (rgb_color c cg cb) 16777216 g)
+                  else sgi_loop r g
+              | _ => sgi_loop r g
+              end
         | _ => sgi_loop r g
         end
       else sgi_loop r (sgi_step1 a g)
